@@ -140,7 +140,7 @@ StringDictionaryRPHTFC::StringDictionaryRPHTFC(IteratorDictString *it,
   bitsrp = rp->getBits();
 
   std::vector<size_t> intStrings;              // Encoded internal strings
-  std::vector<size_t> beginnings(buckets + 1); // Bucket beginnings
+  std::vector<size_t> beginnings(buckets + 2); // Bucket beginnings
 
   size_t ibytes = 0;
   uint io = 0, strings = 0;
